@@ -157,6 +157,18 @@ CHECKS["C16"] = dict(
          "check_definitions.",
     ref="DESIGN.md 4 (C16)")
 
+CHECKS["C19"] = dict(
+    text="Relational check without a reference: the real pipeline is executed twice on the same symbolic program, as written and rewritten, and z3 decides that "
+         "acceptance and value agree on every path. Term level (type_check -> evaluate on every closed parser-shaped program of <= 4 (quick) / 5 (thorough) nodes; "
+         "two views of the same solver variables with separate hole cells): R1 add an unused definition, R2 name the program with a definition, R3 immediately "
+         "applied annotated identity (annotation = the reported type), R4 `if true then p else p`, each at the root. Token level (the real parser on every "
+         "sequence of <= 3 / 4 symbolic tokens, names symbolic): R6 swapping the two names everywhere gives the same term up to names and the same acceptance, "
+         "R7 parentheses around the program and around each single atom in expression position give the same term. Counterexamples are replayed on the "
+         "compiled type checker/evaluator or tokenizer/parser.",
+    note="Trusted: executor + models, z3. Programs accepted with unresolved holes (known finding of C01) are excluded as baselines. NOT covered: R1-R4 at inner "
+         "sites, reordering of independent definitions, sequences of rewrites, the CLI layer.",
+    ref="DESIGN.md 4 (C19)")
+
 CHECKS["C09"] = dict(
     text="Bounded symbolic verification of the tokenizer: tokenizer::tokenize (both passes) is executed by path forking on every text of up to 3 (quick) / 4 "
          "(thorough) characters whose code points are symbolic over all of ASCII plus 12 non-ASCII representatives (2/3/4-byte letters, a non-ASCII digit, "
